@@ -270,6 +270,8 @@ Definition parse_one (is_mod : bool) (pfx : ident) (kids : list snode) (sg : lis
               | Some ks =>
                   match k with
                   | SList _ _ _ =>
+                      (* fewer key values than the list has keys: bad request (repo fix 110eb81) *)
+                      if Nat.ltb (length ks) (length (key_types k)) then PErr FOther else
                       match conv_keys (key_types k) ks with
                       | None => PErr FOther
                       | Some vals => pcons (mkSeg i k (Some vals)) (next (scope_of_node k))
